@@ -25,56 +25,84 @@ def rule_c20(prog, rep):
     rep.rule('B2', 'the boolean branch of the type check accepts both polarities and normalises to "1" / "0"')
     rep.rule('B3', 'every path that makes the parser fail records an error message naming file and line (or propagates a nested failure)')
     rep.rule('B4', 'each processed directive is counted exactly once and nested counts are added; the result is the count or -1')
-    # --- locate the bool branch: the call whose result is tested in the branch guarded by argtype == 3
+    # --- the classifier: the static int function of this unit that knows the spelling "true" (directly or through a table)
+    def spelling_table(g):
+        """{lower-case spelling: (returned value, compare function)} for function g, or {}"""
+        table = {}
+        # (a) chain of comparisons against literals, each followed by a return
+        for n in g.cfg.nodes:
+            if n.kind == 'cond' and isinstance(n.ast, dict):
+                lit = None
+                for y in walk(n.ast):
+                    if y.get('kind') == 'CallExpr' and prog.callee_name(y) in ('strcasecmp', 'strcmp', 'strncasecmp'):
+                        for a in children(y)[1:]:
+                            if _strlit(a) is not None:
+                                lit = (_strlit(a), prog.callee_name(y))
+                if lit is None:
+                    continue
+                s0 = strip_parens(n.ast)
+                eq_label = 'F'
+                if s0.get('kind') == 'BinaryOperator' and s0.get('opcode') == '==' and int_value(children(s0)[1]) == 0:
+                    eq_label = 'T'
+                for (succ, lab) in n.succs:
+                    if lab == eq_label:
+                        m = succ
+                        hops = 0
+                        while m is not None and hops < 6:
+                            if m.kind == 'act' and isinstance(m.ast, dict) and m.ast.get('kind') == 'ReturnStmt' and children(m.ast):
+                                table[lit[0].lower()] = (int_value(children(m.ast)[0]), lit[1])
+                                break
+                            m = m.succs[0][0] if len(m.succs) == 1 else None
+                            hops += 1
+        if table:
+            return table
+        # (b) table driven: an array of {spelling, value} records scanned with str(case)cmp, returning the record's value
+        cmpfn = None
+        for y in walk(g.body):
+            if y.get('kind') == 'CallExpr' and prog.callee_name(y) in ('strcasecmp', 'strcmp', 'strncasecmp'):
+                if any(z.get('kind') == 'ArraySubscriptExpr' for a in children(y)[1:] for z in walk(a)):
+                    cmpfn = prog.callee_name(y)
+        if cmpfn:
+            decls = [x for x in walk(g.body) if x.get('kind') == 'VarDecl' and '[' in qtype(x)] + \
+                    [d for d in g.unit.globals.values() if '[' in qtype(d)]
+            for d in decls:
+                for il in walk(d):
+                    if il.get('kind') == 'InitListExpr':
+                        strs = [_strlit(c) for c in children(il) if _strlit(c) is not None]
+                        ints = [int_value(c) for c in children(il) if _strlit(c) is None and int_value(c) is not None
+                                and not isinstance(int_value(c), str)]
+                        if len(strs) == 1 and len(ints) == 1:
+                            table[strs[0].lower()] = (ints[0], cmpfn)
+        return table
     classifier = None
-    branch_call = None
-    for x in walk(f.body):
-        if x.get('kind') == 'IfStmt':
-            c = strip_parens(children(x)[0])
-            if c.get('kind') == 'BinaryOperator' and c.get('opcode') == '==' and int_value(children(c)[1]) == 3:
-                for y in walk(children(x)[1]):
-                    if y.get('kind') == 'CallExpr' and prog.callee_name(y):
-                        t = prog.func(prog.callee_name(y), UNIT)
-                        if t is not None and t.static and t.rettype == 'int':
-                            classifier, branch_call, bool_branch = t, y, children(x)[1]
-                            break
-            if classifier:
+    table = {}
+    for g in prog.funcs_in(UNIT):
+        if g.static and g.rettype == 'int':
+            t = spelling_table(g)
+            if 'true' in t or 'on' in t or 'yes' in t:
+                classifier, table = g, t
                 break
-    rep.broken_if(classifier is None, 'boolean type-check branch (argtype == 3) with its classifier call not found')
+    rep.broken_if(classifier is None, 'no boolean spelling classifier (static int function comparing against "true"/"on"/"yes") found')
     if classifier is None:
         return
-    # --- B1: literal -> returned constant
-    table = {}
-    fall = None
-    for n in classifier.cfg.nodes:
-        if n.kind == 'cond' and isinstance(n.ast, dict):
-            lit = None
-            for y in walk(n.ast):
-                if y.get('kind') == 'CallExpr' and prog.callee_name(y) in ('strcasecmp', 'strcmp', 'strncasecmp'):
-                    for a in children(y)[1:]:
-                        if _strlit(a) is not None:
-                            lit = (_strlit(a), prog.callee_name(y))
-            if lit is None:
-                continue
-            # the branch on which the strings are equal: strcasecmp(...) == 0, i.e. the F edge of `strcasecmp()` used as a
-            # truth value, the T edge of `!strcasecmp()` (the CFG has already removed the `!`)
-            s = strip_parens(n.ast)
-            eq_label = 'F'
-            if s.get('kind') == 'BinaryOperator' and s.get('opcode') == '==' and int_value(children(s)[1]) == 0:
-                eq_label = 'T'
-            elif s.get('kind') == 'BinaryOperator' and s.get('opcode') == '!=' and int_value(children(s)[1]) == 0:
-                eq_label = 'F'
-            for (succ, lab) in n.succs:
-                if lab == eq_label:
-                    m = succ
-                    hops = 0
-                    while m is not None and hops < 6:
-                        if m.kind == 'act' and isinstance(m.ast, dict) and m.ast.get('kind') == 'ReturnStmt' and children(m.ast):
-                            table[lit[0].lower()] = (int_value(children(m.ast)[0]), lit[1])
-                            break
-                        m = m.succs[0][0] if len(m.succs) == 1 else None
-                        hops += 1
+    calls = [y for y in walk(f.body) if y.get('kind') == 'CallExpr' and prog.callee_name(y) == classifier.name]
+    rep.broken_if(not calls, '%s() is not called from the directive type check' % classifier.name)
+    if not calls:
+        return
+    # the region of the type check that handles booleans: the innermost compound statement containing the call
+    par = {}
+    stack = [f.body]
+    while stack:
+        x = stack.pop()
+        for c in children(x):
+            par[id(c)] = x
+            stack.append(c)
+    region = calls[0]
+    while id(region) in par and region.get('kind') != 'CompoundStmt':
+        region = par[id(region)]
+    bool_branch = region
     rets = [int_value(children(r.ast)[0]) for r in classifier.cfg.returns() if children(r.ast)]
+    rets = [r for r in rets if r is not None]
     for sp in TRUE_SP + FALSE_SP:
         rep.instance('B1')
         ok = sp in table and table[sp][1] in ('strcasecmp', 'strncasecmp')
@@ -82,8 +110,8 @@ def rule_c20(prog, rep):
         if not ok:
             rep.violation('B1', classifier, classifier.line, 'spelling:%s' % sp,
                           'the boolean spelling "%s" is not recognised (case-insensitively) by %s()' % (sp, classifier.name))
-    tv = {table[s][0] for s in TRUE_SP if s in table}
-    fv = {table[s][0] for s in FALSE_SP if s in table}
+    tv = {table[s0][0] for s0 in TRUE_SP if s0 in table}
+    fv = {table[s0][0] for s0 in FALSE_SP if s0 in table}
     other = set(rets) - tv - fv
     rep.instance('B1')
     ok = len(tv) == 1 and len(fv) == 1 and tv != fv and bool(other)
@@ -105,25 +133,33 @@ def rule_c20(prog, rep):
     if not ok:
         rep.violation('B2', f, bool_branch.get('_line'), 'normalise', 'the boolean branch can only write %s; both "1" and "0" are required'
                       % sorted(lits))
-    # both polarities accepted: the error exit of the branch is taken only for the not-a-boolean value
+    # both polarities accepted: the failure arm is taken exactly for the not-a-boolean outcome
     rep.instance('B2')
     accept_ok = False
+
+    def fails(node):
+        return any(y.get('kind') == 'BinaryOperator' and y.get('opcode') == '=' and 'exception' in canon(children(y)[0])
+                   for y in walk(node)) or any(y.get('kind') == 'GotoStmt' for y in walk(node))
     for x in walk(bool_branch):
         if x.get('kind') == 'IfStmt':
             c = strip_parens(children(x)[0])
-            if c.get('kind') == 'BinaryOperator':
-                cc = canon(c)
+            if c.get('kind') == 'BinaryOperator' and c.get('opcode') in ('>=', '>', '!=', '==', '<', '<='):
                 v = int_value(children(c)[1])
                 op = c.get('opcode')
-                if tv and fv and v is not None:
+                if tv and fv and v is not None and not isinstance(v, str):
                     t0, f0 = list(tv)[0], list(fv)[0]
+
                     def holds(val):
-                        return {'>=': val >= v, '>': val > v, '!=': val != v, '==': val == v, '<': val < v, '<=': val <= v}.get(op)
-                    others = list(other) or [None]
-                    then_has_copy = any(y.get('kind') == 'CallExpr' and prog.callee_name(y) == 'strcpy' for y in walk(children(x)[1]))
-                    if then_has_copy and holds(t0) and holds(f0) and all(o is None or not holds(o) for o in others):
-                        accept_ok = True
-                    if (not then_has_copy) and not holds(t0) and not holds(f0) and all(o is None or holds(o) for o in others):
+                        return {'>=': val >= v, '>': val > v, '!=': val != v, '==': val == v, '<': val < v, '<=': val <= v}[op]
+                    then_fails = fails(children(x)[1])
+                    else_fails = len(children(x)) > 2 and fails(children(x)[2])
+                    if not (then_fails or else_fails):
+                        continue
+
+                    def goes_to_failure(val):
+                        return then_fails if holds(val) else else_fails
+                    others = list(other)
+                    if not goes_to_failure(t0) and not goes_to_failure(f0) and others and all(goes_to_failure(o) for o in others):
                         accept_ok = True
     rep.oblige('B2', accept_ok, {'accepts_both_polarities': accept_ok})
     if not accept_ok:
@@ -179,7 +215,9 @@ def rule_c20(prog, rep):
                       '(expected 1 and 1)' % (cnt, len(incs), len(adds)))
         return
     # the increment is on every loop path that created a callback record and did not fail
-    loop = [(h, s) for (h, s) in f.cfg.loops if s.get('kind') == 'WhileStmt']
+    # the directive loop: the outermost loop whose body contains the counter increment
+    loop = [(h, s0) for (h, s0) in f.cfg.loops if any(y is incs[0] for y in walk(s0))]
+    loop.sort(key=lambda t: t[1].get('_line') or 0)
     rep.instance('B4')
     okp = True
     if loop:
